@@ -310,21 +310,21 @@ func runC08(t *testing.T, tier string) int {
 		samples = append(samples, "attributes:x")
 	}
 	cov := map[string]any{
-		"evaluations":         st.strings + int64(bytesTotal) + int64(stored),
-		"distinct_nontrivial": st.accepted,
-		"rule":                "(i) every sequence of up to L token classes joined by space / nothing / tab+newline, (ii) grammar sentences with adversarial names and strings and every single-token deletion, swap, substitution and insertion, (iii) every byte string over a 12-symbol alphabet up to length B (totality under a watchdog); distinct_nontrivial = strings accepted by the parser (each also round-tripped through AsFilter)",
-		"samples":             samples,
-		"token_sequences":     tokenSeqs,
-		"max_token_len":       L,
-		"sentence_variants":   mutated,
+		"evaluations":               st.strings + int64(bytesTotal) + int64(stored),
+		"distinct_nontrivial":       st.accepted,
+		"rule":                      "(i) every sequence of up to L token classes joined by space / nothing / tab+newline, (ii) grammar sentences with adversarial names and strings and every single-token deletion, swap, substitution and insertion, (iii) every byte string over a 12-symbol alphabet up to length B (totality under a watchdog); distinct_nontrivial = strings accepted by the parser (each also round-tripped through AsFilter)",
+		"samples":                   samples,
+		"token_sequences":           tokenSeqs,
+		"max_token_len":             L,
+		"sentence_variants":         mutated,
 		"quoted_names_roundtripped": len(qnames),
-		"accepted":            st.accepted,
-		"rejected":            st.rejected,
-		"dont_care":           st.dontCare,
-		"roundtrips":          st.roundtrips,
-		"byte_strings":        bytesTotal,
+		"accepted":                  st.accepted,
+		"rejected":                  st.rejected,
+		"dont_care":                 st.dontCare,
+		"roundtrips":                st.roundtrips,
+		"byte_strings":              bytesTotal,
 		"rejected_strings_sent_to_create_and_update": stored,
-		"exhaustive":          true,
+		"exhaustive": true,
 	}
 	ev := report.Evidence{PropertyID: "C08", Tier: tier, Seed: report.Seed(), Level: "exploration", Coverage: cov,
 		Assumptions: []string{"whitespace between '!' and '=' and keyword-spelled unquoted attribute names are don't-care for acceptance", "bytes outside the enumerated alphabets are not covered (fuzzing is another technique)"}}
